@@ -722,6 +722,16 @@ def run_c10(c):
         # symmetry with the per-series psi entries swapped
         sw = variant(s1=c["s2"], s2=c["s1"], psi=[c["psi"][2], c["psi"][3], c["psi"][0], c["psi"][1]])
         rel.append([eng + ":symmetry", "eq", dist(sw, eng), d])
+        # ... also with the Euclidean bound in play (pruning where it is a valid bound, and the bound itself)
+        if c["inner"] != "cu" and c["ms"] == 0 and c["md"] == 0 and (c["pen"] == 0 or l1 == l2):
+            rel.append([eng + ":symmetry[use_pruning]", "eq", dist(dict(sw, prune=True), eng),
+                        dist(variant(prune=True), eng)])
+            inner = "euclidean" if c["inner"] == "eu" else "squared euclidean"
+            a2, b2 = series(c, "s1", "numpy"), series(c, "s2", "numpy")
+            if eng == "py":
+                rel.append(["py:symmetry[ed.distance]", "eq",
+                            enc_guarded(c, lambda: ed.distance(a2, b2, inner_dist=inner, use_ndim=(nd > 1))),
+                            enc_guarded(c, lambda: ed.distance(b2, a2, inner_dist=inner, use_ndim=(nd > 1)))])
         # window monotonicity
         if c["w"] != 0:
             rel.append([eng + ":window+1", "le", dist(variant(w=c["w"] + 1), eng), d])
